@@ -219,6 +219,120 @@ def r19_13(ctx):
         ctx.ok(where, "the SGR parameters are limited to CSI parameter / intermediate bytes", "ansi:re_ansi")
 
 
+def _fold_on(expr, var, value):
+    """value of a pure expression over one string variable, folded for a literal argument (names other than the variable and a few
+    total builtins make it unreadable -> AnalysisError)"""
+    allowed = {"int": int, "min": min, "max": max, "len": len, "str": str, "bool": bool}
+    for n in ast.walk(expr):
+        if isinstance(n, ast.Name) and n.id != var and n.id not in allowed:
+            raise AnalysisError(f"`{norm(expr)}` reads `{n.id}`; it cannot be folded for an empty parameter")
+        if isinstance(n, ast.Call) and isinstance(n.func, ast.Attribute) and n.func.attr not in ("isdecimal", "isdigit", "isnumeric", "lstrip", "rstrip", "strip", "startswith", "endswith"):
+            raise AnalysisError(f"`{norm(expr)}` calls .{n.func.attr}(); it cannot be folded for an empty parameter")
+        if isinstance(n, (ast.Lambda, ast.Await, ast.Yield, ast.YieldFrom, ast.NamedExpr, ast.ListComp, ast.GeneratorExp, ast.DictComp, ast.SetComp)):
+            raise AnalysisError(f"`{norm(expr)}` cannot be folded")
+    code = compile(ast.fix_missing_locations(ast.Expression(body=ast.parse(norm(expr), mode="eval").body)), "<fold>", "eval")
+    try:
+        return True, eval(code, {"__builtins__": {}}, dict(allowed, **{var: value}))
+    except Exception as e:  # the expression raises on that literal
+        return False, e
+
+
+def r19_14(ctx):
+    ctx.rule("R19.14", "a sequence with no parameters is a reset: re_ansi matches ESC[m (what git, tput sgr0 and many tools write) with an empty parameter string. decode_line must take its SGR branch for that match - a truthiness test of the parameter string reads it as 'no SGR' - and the parameter list built from it must contain 0 for an omitted parameter, so that the running style is dropped; otherwise the colour of redirected output leaks into every line decoded afterwards")
+    am = ctx.repo.mod("ansi")
+    rx = regexast.compile_call(am.global_assign("re_ansi"))
+    if rx is None:
+        raise AnchorVanished("ansi.re_ansi not found")
+    sgr_alt, _osc = _ansi_alternatives(rx)
+    if sgr_alt is None:
+        raise AnalysisError("re_ansi: no alternative of the form ESC [ (parameters) m was recognised")
+    rc = regexast.repeated_class(sgr_alt[2][2])
+    if rc is None:
+        raise AnalysisError("re_ansi: the SGR parameter group is not a repeated character class")
+    if rc[0] > 0:
+        ctx.ok(f"{am.relpath}:{rx.lineno}", "ESC[m is not matched as SGR (it is removed as an unknown sequence): premise of this rule absent", "ansi:re_ansi")
+        raise AnalysisError("re_ansi requires at least one SGR parameter byte: ESC[m then falls to the CSI remover and is dropped without resetting the style; this rule does not decide that design")
+    gidx = sgr_alt[2][1]
+    f = ctx.repo.fn("ansi:AnsiDecoder.decode_line")
+    m = f.module
+    # the name that holds the SGR parameters: `plain, sgr, osc = token` (field order = _AnsiToken(plain, <group 1>, <group 2>))
+    tk = ctx.repo.fn("ansi:_ansi_tokenize")
+    order = None
+    for n in walk_local(tk.node):
+        if isinstance(n, ast.Assign) and isinstance(n.targets[0], ast.Tuple) and isinstance(n.value, ast.Call) and norm(n.value.func).endswith(".groups"):
+            order = [norm(e) for e in n.targets[0].elts]
+    tok_args = None
+    for n in walk_local(tk.node):
+        if isinstance(n, ast.Call) and call_name(n) == "_AnsiToken" and len(n.args) == 3:
+            tok_args = [norm(a) for a in n.args]
+    if order is None or tok_args is None or len(order) < gidx or order[gidx - 1] not in tok_args:
+        raise AnalysisError("_ansi_tokenize: cannot follow the SGR group of re_ansi into the token it yields")
+    field = tok_args.index(order[gidx - 1])
+    sgr_var = None
+    for n in walk_local(f.node):
+        if isinstance(n, ast.Assign) and isinstance(n.targets[0], ast.Tuple) and len(n.targets[0].elts) == 3 and norm(n.value) == "token":
+            sgr_var = norm(n.targets[0].elts[field])
+        if isinstance(n, ast.For) and isinstance(n.target, ast.Tuple) and len(n.target.elts) == 3 and "_ansi_tokenize" in norm(n.iter):
+            sgr_var = norm(n.target.elts[field])
+    if sgr_var is None:
+        raise AnalysisError("decode_line: the token is not unpacked into three names; cannot tell which one holds the SGR parameters")
+    # the branch that interprets the parameters
+    branch = None
+    for n in walk_local(f.node):
+        if isinstance(n, ast.If) and any(isinstance(c, ast.Call) and isinstance(c.func, ast.Attribute) and c.func.attr == "split" and norm(c.func.value) == sgr_var for b in n.body for c in ast.walk(b)):
+            if branch is None or any(n is x for x in ast.walk(branch)):
+                branch = n
+    if branch is None:
+        raise AnalysisError(f"decode_line: no branch splits `{sgr_var}` into codes; the SGR interpretation is written in a form this rule does not read")
+    where = f"{m.relpath}:{branch.lineno}"
+    t = norm(branch.test)
+    if t in (sgr_var, f"{sgr_var} != ''", f"len({sgr_var})", f"len({sgr_var}) > 0", f"bool({sgr_var})"):
+        ctx.violation(f.fq, f"elif {t}:", where, f"the SGR branch is taken only for a non-empty parameter string: ESC[m (a reset) is matched by re_ansi with '' and then ignored, so the style in force leaks into all later text - AnsiDecoder().decode('\\x1b[31mred\\x1b[m plain') paints ' plain' red")
+        return
+    if t not in (f"{sgr_var} is not None",):
+        raise AnalysisError(f"decode_line: the SGR branch is guarded by `{t}`; cannot tell whether it is taken for an empty parameter string")
+    # `is not None` tells a match from no match only if plain tokens carry None in that field
+    tc = ctx.repo.cls("ansi:_AnsiToken")
+    fields = [b for b in tc.node.body if isinstance(b, ast.AnnAssign)]
+    if len(fields) <= field or fields[field].value is None:
+        raise AnalysisError("_AnsiToken: field defaults not found")
+    dflt = fields[field].value
+    plain_tokens_short = any(isinstance(n, ast.Call) and call_name(n) == "_AnsiToken" and len(n.args) + len(n.keywords) < 3 for n in walk_local(tk.node))
+    if plain_tokens_short and not (isinstance(dflt, ast.Constant) and dflt.value is None):
+        ctx.violation(tc.fq if hasattr(tc, "fq") else "ansi:_AnsiToken", short(fields[field]), f"{m.relpath}:{fields[field].lineno}", f"plain-text tokens carry `{norm(dflt)}` in the SGR field while decode_line takes `{t}` as 'an SGR sequence matched': a text run that is empty after CSI removal resets the style")
+        return
+    ctx.ok(where, f"the SGR branch is taken for every SGR match (`{t}`; plain tokens carry None)", f.fq)
+    # an omitted parameter is 0
+    comp = None
+    for b in branch.body:
+        for c in ast.walk(b):
+            if isinstance(c, (ast.ListComp, ast.GeneratorExp)) and len(c.generators) == 1 and "split" in norm(c.generators[0].iter) and sgr_var in norm(c.generators[0].iter):
+                comp = c
+    if comp is None:
+        raise AnalysisError("decode_line: the codes are not built by one comprehension over the split parameters; the omitted-parameter clause is not decided")
+    gen = comp.generators[0]
+    if not isinstance(gen.target, ast.Name):
+        raise AnalysisError("decode_line: the code comprehension unpacks its items")
+    v = gen.target.id
+    w2 = f"{m.relpath}:{comp.lineno}"
+    kept = True
+    for cond in gen.ifs:
+        okc, val = _fold_on(cond, v, "")
+        if not okc:
+            raise AnalysisError(f"decode_line: the filter `{norm(cond)}` raises on an empty parameter")
+        kept = kept and bool(val)
+    if not kept:
+        ctx.violation(f.fq, short(comp), w2, f"an omitted parameter is filtered out (`{' and '.join(norm(c) for c in gen.ifs)}` is false for ''): ESC[m yields no code at all and nothing is reset")
+        return
+    okv, val = _fold_on(comp.elt, v, "")
+    if not okv:
+        ctx.violation(f.fq, short(comp), w2, f"`{norm(comp.elt)}` raises {type(val).__name__} for an omitted parameter: ESC[m breaks the decoding of the line")
+    elif val != 0:
+        ctx.violation(f.fq, short(comp), w2, f"an omitted parameter becomes {val!r}, not 0: ESC[m does not reset")
+    else:
+        ctx.ok(w2, "an omitted parameter is read as 0 (reset)", f.fq)
+
+
 def r19_4(ctx):
     ctx.rule("R19.4", "reset and links: SGR 0 resets the running style to null; the OSC-8 template written by Style.render is matched by the decoder's regex and the decoder takes everything after the parameter field as the URL (so URLs containing ';' survive); an empty URL closes the link")
     f = ctx.repo.fn("ansi:AnsiDecoder.decode_line")
@@ -568,4 +682,4 @@ def r19_12(ctx):
         ctx.ok(init.where, f"decoder slot(s) {sorted(slots)} stored only in __init__", init.fq)
 
 
-RULES = [r19_1, r19_2, r19_3, r19_4, r19_5, r19_6, r19_8, r19_9, r19_10, r19_11, r19_12, r19_13]
+RULES = [r19_1, r19_2, r19_3, r19_4, r19_5, r19_6, r19_8, r19_9, r19_10, r19_11, r19_12, r19_13, r19_14]
